@@ -305,7 +305,7 @@ theorem activation_order_matters :
 `_log` reads `core.enabled` before `core.activation_list` -/
 theorem activation_shape_of_source :
     Conc.ShapeGen.actFirst = true ∧ Conc.ShapeGen.copiesEnabledUnderLock = true ∧
-    Conc.ShapeGen.missReadsEnabledFirst = true := by decide
+    Conc.ShapeGen.missReadsEnabledFirst = true ∧ Conc.ShapeGen.noneBranchPublishes = true := by decide
 
 /-! ### the level table (`Conc/Levels.lean`): no logging call indexes a level a handler does not know -/
 
